@@ -2,7 +2,5 @@ package main
 
 import "verif/harness/mon"
 
-func jsonMain(args mon.Args)               { panic("todo") }
-func sflowMain(args mon.Args, prop string) { panic("todo") }
-func nf5Main(args mon.Args)                { panic("todo") }
-func metaMain(args mon.Args)               { panic("todo") }
+func jsonMain(args mon.Args) { panic("todo") }
+func metaMain(args mon.Args) { panic("todo") }
